@@ -107,9 +107,11 @@ Inductive event :=
 | EStop.
 
 (* what the application can see of the header of the message it is handed (used by the C06 gate statement) *)
-Record mfacts := { mf_begin : bytes; mf_sender : option bytes; mf_target : option bytes; mf_stime : fres Z; mf_valid : verdict }.
+Record mfacts := { mf_begin : bytes; mf_sender : option bytes; mf_target : option bytes; mf_stime : fres Z; mf_valid : verdict;
+                   mf_id : option bytes (* ClOrdID (11) of the body, if any: identifies the payload in the two-engine runs *) }.
 Definition facts_of (m : minput) : mfacts :=
-  {| mf_begin := mi_begin m; mf_sender := mi_sender m; mf_target := mi_target m; mf_stime := mi_stime m; mf_valid := mi_valid m |}.
+  {| mf_begin := mi_begin m; mf_sender := mi_sender m; mf_target := mi_target m; mf_stime := mi_stime m; mf_valid := mi_valid m;
+     mf_id := match find (fun f => fst f =? 11) (mi_body m) with Some (_, v) => Some v | None => None end |}.
 
 (* callbacks and store events, in the order they happen *)
 Inductive cb :=
